@@ -70,10 +70,10 @@ def patch_lines(schema):
     return out
 
 
-def topo_decls(schema, order=None):
-    """the definitions as the Lean model of topological_sort reads them, in IsarParser.parse order"""
+def topo_decls(schema, order=None, includes=()):
+    """the definitions as the Lean model of topological_sort reads them, in IsarParser.parse order (Include nodes first)"""
     decls = schema.decls if order is None else [schema.decls[i] for i in order]
-    out = []
+    out = [{'k': 'include', 'name': i} for i in includes]
     for kind in (S.Const, S.Typedef, S.Enum, S.Struct, S.Union):
         for d in decls:
             if not isinstance(d, kind):
